@@ -64,7 +64,7 @@ pub struct Case {
     jitter_ms: u8,
 }
 
-fn edges(n: usize, t: &Topo) -> Vec<(usize, usize)> {
+pub fn edges(n: usize, t: &Topo) -> Vec<(usize, usize)> {
     let mut e = Vec::new();
     match t {
         Topo::Mesh => {
@@ -131,7 +131,7 @@ fn edges(n: usize, t: &Topo) -> Vec<(usize, usize)> {
     e
 }
 
-fn tid_bytes(seed: u8, i: usize) -> [u8; 32] {
+pub fn tid_bytes(seed: u8, i: usize) -> [u8; 32] {
     *blake3::hash(&[seed, i as u8, 0x01]).as_bytes()
 }
 fn fake_id(seed: u8, x: u8) -> String {
@@ -444,7 +444,7 @@ async fn run_async(c: &Case) -> Verdict {
     v
 }
 
-fn mode() -> impl Strategy<Value = Mode> {
+pub fn mode() -> impl Strategy<Value = Mode> {
     prop_oneof![3 => Just(Mode::Silent), 2 => Just(Mode::Dead), 2 => (1u32..1500).prop_map(Mode::Slow), 1 => (2100u32..4000).prop_map(Mode::Slow)]
 }
 fn name() -> impl Strategy<Value = Name> {
